@@ -98,6 +98,8 @@ function slenClassCaught(){{ __count += 1; var a=__slen(); try{{ K(1,2) }}catch(
 function slenOwnCaught(){{ __count += 1; var a=__slen(); try{{ throw 1 }}catch(e){{ }} var b=__slen(); return b-a }}
 function slenNativeCaught(){{ __count += 1; var a=__slen(); try{{ __nthrow(1,2) }}catch(e){{ }} var b=__slen(); return b-a }}
 function slenFinally(){{ __count += 1; var a=__slen(); try{{ try{{ callsThrower(1,2,3) }}finally{{ a += 0 }} }}catch(e){{ }} var b=__slen(); return b-a }}
+function slenEvalThrow(){{ __count += 1; var a=__slen(); try{{ (0,eval)('callsThrower(1,2,3)') }}catch(e){{ }} return __slen()-a }}
+function slenEvalEdi(){{ __count += 1; var a=__slen(); try{{ (0,eval)('function NaN(){{}}') }}catch(e){{ }} return __slen()-a }}
 function classCaught(){{ __count += 1; try{{ K(1,2) }}catch(e){{ return 'kc'+__count }} }}
 var K = class K {{ constructor(a){{ this.a=a; __count += 1 }} }};
 var D = class D extends K {{ constructor(){{ }} }};
@@ -374,6 +376,10 @@ static KINDS: &[Kind] = &[
     Kind { name: "ev_slen_own",       act: |r| { r.eval("slenOwnCaught()"); } },
     Kind { name: "ev_slen_native",    act: |r| { r.eval("slenNativeCaught()"); } },
     Kind { name: "ev_slen_finally",   act: |r| { r.eval("slenFinally()"); } },
+    Kind { name: "ev_slen_eval_throw", act: |r| { r.eval("slenEvalThrow()"); } },
+    Kind { name: "ev_slen_eval_edi",  act: |r| { r.eval("slenEvalEdi()"); } },
+    Kind { name: "ev_eval_limit",     act: |r| { r.eval("(0,eval)('rec(0)')"); } },
+    Kind { name: "ev_eval_throw",     act: |r| { r.eval("(0,eval)('callsThrower(1,2,3)')"); } },
     Kind { name: "ev_class_caught",   act: |r| { r.eval("classCaught()"); } },
     Kind { name: "ev_decl_a",         act: |r| { r.eval("let __dup = 1; __count += 1; __dup"); } },
     Kind { name: "ev_decl_b",         act: |r| { r.eval("var __gv = 1; let __dup = 2; __count += 1; __dup"); } },
